@@ -78,7 +78,16 @@ def build(ir):
         _, op, params, l, r = ir
         a, b = build(l), build(r)
         if op == "getitem":
-            off = dict(params).get("offset", 0)
+            pp = dict(params)
+            off = pp.get("offset", 0)
+            sugar = pp.get("sugar", 0)
+            nd = len(a.output.shape)
+            if sugar == 1:      # python indexing with leading full slices
+                return a[(slice(None),) * off + (b,)]
+            if sugar == 2:      # Ellipsis on the left: x[..., t, :, :]
+                return a[(Ellipsis, b) + (slice(None),) * (nd - 1 - off)]
+            if sugar == 3:      # Ellipsis on the right: x[:, t, ...]
+                return a[(slice(None),) * off + (b, Ellipsis)]
             return ops.GetitemOp(off)(a, b) if off else a[b]
         return getattr(ops, op)(a, b)
     if k == "red":
